@@ -66,9 +66,46 @@ def has_quant(hyps, goal):
     return any(walk(h) for h in list(hyps) + [goal])
 
 
+def spec_syms(e, cache):
+    k = e.get_id()
+    if k in cache:
+        return cache[k]
+    out = set()
+    stack, seen = [e], set()
+    while stack:
+        x = stack.pop()
+        i = x.get_id()
+        if i in seen:
+            continue
+        seen.add(i)
+        if z3.is_quantifier(x):
+            stack.append(x.body())
+            continue
+        if z3.is_app(x):
+            d = x.decl()
+            if d.kind() == z3.Z3_OP_UNINTERPRETED and d.arity() > 0:
+                out.add(d.name())
+            stack.extend(x.children())
+    cache[k] = out
+    return out
+
+
+def relevant_hyps(hyps, goal):
+    """Hypotheses whose uninterpreted function symbols all occur in the goal (dropping hypotheses is sound)."""
+    cache = {}
+    g = spec_syms(goal, cache)
+    return [h for h in hyps if spec_syms(h, cache) <= g]
+
+
 def check_goal(hyps, goal, timeout_ms, use_cvc5=True, want_model=True):
     """Returns (verdict, backend, model_or_None, seconds); verdict in proved / refuted / unknown."""
     t0 = time.time()
+    rel = relevant_hyps(hyps, goal)
+    if len(rel) < len(hyps):
+        for em in (True, False):
+            sr = _mk(rel, goal, min(4000, max(1000, timeout_ms // 4)), em)
+            if sr.check() == z3.unsat:
+                return 'proved', 'z3-relevant-hyps', None, time.time() - t0
     quant = has_quant(hyps, goal)
     if quant:
         qf = [h for h in hyps if not has_quant([h], z3.BoolVal(True))]
@@ -105,6 +142,18 @@ def check_goal(hyps, goal, timeout_ms, use_cvc5=True, want_model=True):
 def discharge(o, timeout_ms=10000):
     t0 = time.time()
     backends = set()
+    if o.expect_sat == 'any':
+        # satisfiable on at least one goal (unknown counts as possibly satisfiable)
+        for hyps, goal, where in o.goals:
+            s = z3.Solver()
+            s.set('timeout', min(timeout_ms, 3000))
+            for h in hyps:
+                s.add(h)
+            if s.check() != z3.unsat:
+                o.status, o.backend, o.time = 'sat', 'z3', time.time() - t0
+                return o
+        o.status, o.detail, o.backend, o.time = 'vacuous', 'no exit is reachable: assumptions are contradictory', 'z3', time.time() - t0
+        return o
     for hyps, goal, where in o.goals:
         if o.expect_sat:
             s = z3.Solver()
@@ -133,5 +182,245 @@ def discharge(o, timeout_ms=10000):
             return o
     o.status = 'proved' if not o.expect_sat else 'sat'
     o.backend = '+'.join(sorted(backends)) if backends else 'trivial'
+    o.time = time.time() - t0
+    return o
+
+
+def _strategies(hyps, goal):
+    out = []
+    rel = relevant_hyps(hyps, goal)
+    quant = has_quant(hyps, goal)
+    if len(rel) < len(hyps):
+        out.append(('z3-relevant-hyps-ematch', rel, True, False))
+        out.append(('z3-relevant-hyps', rel, False, False))
+    if quant:
+        qf = [h for h in hyps if not has_quant([h], z3.BoolVal(True))]
+        if len(qf) < len(hyps):
+            out.append(('z3-qf-hyps', qf, True, False))
+        out.append(('z3-ematch', hyps, True, False))
+    out.append(('z3', hyps, False, True))
+    out.append(('cvc5', hyps, None, False))
+    return out
+
+
+def _run_strategy(name, hyps, goal, ematch, decisive, timeout_ms):
+    """Child process body: returns dict(verdict, model)."""
+    if name == 'cvc5':
+        try:
+            s = _mk(hyps, goal, timeout_ms, False)
+            smt2 = s.to_smt2().replace('(check-sat)', '')
+            if 'lambda' in smt2:
+                return dict(verdict='unknown')
+            v = run_cvc5(smt2, max(2, timeout_ms // 1000))
+            return dict(verdict='proved' if v == 'unsat' else 'unknown')
+        except Exception:
+            return dict(verdict='unknown')
+    s = _mk(hyps, goal, timeout_ms, bool(ematch))
+    r = s.check()
+    if r == z3.unsat:
+        return dict(verdict='proved')
+    if r == z3.sat and decisive:
+        try:
+            return dict(verdict='refuted', model=model_dict(s.model()))
+        except Exception:
+            return dict(verdict='refuted', model=None)
+    return dict(verdict='unknown')
+
+
+def _quick(hyps, goal):
+    """One child, three short sequential attempts; most obligations are discharged here."""
+    import json
+    import select
+    import signal
+    r, w = os.pipe()
+    pid = os.fork()
+    if pid == 0:
+        try:
+            os.close(r)
+            d = dict(verdict='unknown')
+            try:
+                for name, em, ms in (('z3-ematch', True, 400), ('z3', False, 700)):
+                    s = _mk(hyps, goal, ms, em)
+                    res = s.check()
+                    if res == z3.unsat:
+                        d = dict(verdict='proved', backend=name)
+                        break
+                    if res == z3.sat and not em:
+                        try:
+                            d = dict(verdict='refuted', backend=name, model=model_dict(s.model()))
+                        except Exception:
+                            d = dict(verdict='refuted', backend=name, model=None)
+                        break
+            except Exception:
+                pass
+            os.write(w, json.dumps(d, default=str).encode())
+        finally:
+            os._exit(0)
+    os.close(w)
+    buf = b''
+    rl, _, _ = select.select([r], [], [], 4.0)
+    if rl:
+        while True:
+            chunk = os.read(r, 1 << 16)
+            if not chunk:
+                break
+            buf += chunk
+    os.close(r)
+    try:
+        os.kill(pid, signal.SIGKILL)
+    except OSError:
+        pass
+    try:
+        os.waitpid(pid, 0)
+    except OSError:
+        pass
+    try:
+        return json.loads(buf.decode()) if buf else dict(verdict='unknown')
+    except Exception:
+        return dict(verdict='unknown')
+
+
+def portfolio(hyps, goal, timeout_ms):
+    """Run the strategies as concurrent child processes; first proof wins.  Returns (verdict, backend, model, secs)."""
+    import json
+    import select
+    import signal
+    t0 = time.time()
+    q = _quick(hyps, goal)
+    if q['verdict'] in ('proved', 'refuted'):
+        return q['verdict'], q.get('backend', 'z3'), q.get('model'), time.time() - t0
+    strat = _strategies(hyps, goal)
+    kids = {}
+    for name, hy, em, dec in strat:
+        r, w = os.pipe()
+        pid = os.fork()
+        if pid == 0:
+            try:
+                os.close(r)
+                try:
+                    d = _run_strategy(name, hy, goal, em, dec, timeout_ms)
+                except Exception as e:  # noqa
+                    d = dict(verdict='unknown', error=str(e))
+                os.write(w, json.dumps(d, default=str).encode())
+            finally:
+                os._exit(0)
+        os.close(w)
+        kids[r] = (pid, name)
+    verdict, backend, model = 'unknown', 'z3', None
+    limit = timeout_ms / 1000.0 + 8
+    bufs = {r: b'' for r in kids}
+    open_fds = set(kids)
+    refuted = None
+    try:
+        while open_fds:
+            left = limit - (time.time() - t0)
+            if left <= 0:
+                backend = 'hard-timeout'
+                break
+            rl, _, _ = select.select(list(open_fds), [], [], left)
+            if not rl:
+                backend = 'hard-timeout'
+                break
+            done = False
+            for r in rl:
+                chunk = os.read(r, 1 << 16)
+                if chunk:
+                    bufs[r] += chunk
+                    continue
+                open_fds.discard(r)
+                try:
+                    d = json.loads(bufs[r].decode()) if bufs[r] else {'verdict': 'unknown'}
+                except Exception:
+                    d = {'verdict': 'unknown'}
+                if d['verdict'] == 'proved':
+                    verdict, backend, done = 'proved', kids[r][1], True
+                    break
+                if d['verdict'] == 'refuted':
+                    refuted = (kids[r][1], d.get('model'))
+            if done:
+                break
+            if refuted is not None:
+                # a complete-hypothesis model: decisive
+                verdict, backend, model = 'refuted', refuted[0], refuted[1]
+                break
+    finally:
+        for r, (pid, name) in kids.items():
+            try:
+                os.kill(pid, signal.SIGKILL)
+            except OSError:
+                pass
+            try:
+                os.waitpid(pid, 0)
+            except OSError:
+                pass
+            try:
+                os.close(r)
+            except OSError:
+                pass
+    return verdict, backend, model, time.time() - t0
+
+
+def discharge_safe(o, timeout_ms=10000, hard_factor=3.0):
+    """Discharge an obligation goal by goal with the solver portfolio (hard wall-clock limits)."""
+    t0 = time.time()
+    if o.expect_sat:
+        return _discharge_cover(o, timeout_ms)
+    backends = set()
+    for hyps, goal, where in o.goals:
+        v, be, m, dt = portfolio(hyps, goal, timeout_ms)
+        backends.add(be)
+        if v != 'proved':
+            o.status, o.detail, o.model, o.backend, o.time = v, where, m, be, time.time() - t0
+            return o
+    o.status = 'proved'
+    o.backend = '+'.join(sorted(backends)) if backends else 'trivial'
+    o.time = time.time() - t0
+    return o
+
+
+def _discharge_cover(o, timeout_ms):
+    """Vacuity guards in a child process with a hard limit; anything but `unsat` counts as satisfiable."""
+    import json
+    import select
+    import signal
+    t0 = time.time()
+    r, w = os.pipe()
+    pid = os.fork()
+    if pid == 0:
+        try:
+            os.close(r)
+            try:
+                discharge(o, min(timeout_ms, 3000))
+                d = dict(status=o.status, detail=o.detail)
+            except Exception as e:  # noqa
+                d = dict(status='sat', detail=str(e))
+            os.write(w, json.dumps(d).encode())
+        finally:
+            os._exit(0)
+    os.close(w)
+    buf = b''
+    rl, _, _ = select.select([r], [], [], 8 + 3 * len(o.goals))
+    if rl:
+        while True:
+            chunk = os.read(r, 1 << 16)
+            if not chunk:
+                break
+            buf += chunk
+    os.close(r)
+    try:
+        os.kill(pid, signal.SIGKILL)
+    except OSError:
+        pass
+    try:
+        os.waitpid(pid, 0)
+    except OSError:
+        pass
+    o.status, o.backend, o.detail = 'sat', 'z3', ''
+    if buf:
+        try:
+            d = json.loads(buf.decode())
+            o.status, o.detail = d['status'], d.get('detail', '')
+        except Exception:
+            pass
     o.time = time.time() - t0
     return o
